@@ -67,6 +67,10 @@ def m_hash_u64(ip, callee, args):
     if key not in memo:
         t = ip.fresh('Int', 'hash', 'u64'); _range_assume(ip, t, 'u64'); memo[key] = t
     return memo[key]
+def m_end_thread(ip, callee, args): raise ThreadEnd()
+def m_run_until_end(ip, callee, args):
+    try: return opt_some(ip.call_value(args[0], []))
+    except ThreadEnd: return OPT_NONE()
 def m_any_bool(ip, callee, args): return ip.fresh('Bool', val_of_strlike(args[0]), 'bool')
 PRINTABLE = '(re.* (re.range " " "~"))'
 def m_any_str(ip, callee, args):
@@ -425,7 +429,7 @@ def install(ip):
     M = ip.models
     for ty in ('i32', 'i64', 'u8', 'u64', 'u128', 'usize'):
         M['vsym::any_' + ty] = m_any_int(ty)
-    M['vsym::any_bool'] = m_any_bool; M['vsym::any_str'] = m_any_str; M['vsym::any_token'] = m_any_token; M['vsym::any_ascii'] = m_any_ascii; M['vsym::choice'] = m_choice; M['vsym::hash_u64'] = m_hash_u64; M['vsym::param'] = m_param
+    M['vsym::any_bool'] = m_any_bool; M['vsym::any_str'] = m_any_str; M['vsym::any_token'] = m_any_token; M['vsym::any_ascii'] = m_any_ascii; M['vsym::choice'] = m_choice; M['vsym::hash_u64'] = m_hash_u64; M['vsym::end_thread'] = m_end_thread; M['vsym::run_until_end'] = m_run_until_end; M['vsym::param'] = m_param
     M['vsym::assume'] = m_assume; M['vsym::check'] = m_check; M['vsym::cover'] = m_cover; M['vsym::tag'] = m_tag; M['vsym::tag_i'] = m_tag_i
     M['vsym::expect_panic'] = m_expect_panic; M['vsym::spawn'] = m_spawn; M['vsym::join'] = m_join; M['vsym::yield_now'] = m_yield; M['vsym::current_tid'] = m_current_tid; M['vsym::set_cooperative'] = m_set_coop; M['vsym::is_cooperative'] = m_is_coop; M['vsym::spawn_suspended'] = m_spawn_suspended; M['vsym::resume'] = m_resume; M['vsym::suspend'] = m_suspend; M['vsym::take'] = m_take; M['vsym::block_on_lock'] = m_block_on_lock
     for k in [k for k in M if k.startswith('vsym::')]: M[k[6:]] = M[k]
@@ -584,6 +588,7 @@ def display_value(ip, v, ity=None):
     if isinstance(v, float): return str(int(v)) if v == int(v) and abs(v) < 1e16 else repr(v)
     if isinstance(v, Term) and v.sort == 'Int': return IntStr(v, ity)
     if isinstance(v, Term) and v.sort == 'Bool': return T('(ite %s "true" "false")', 'String', v.s)
+    if isinstance(v, Agg) and v.ty in ('Arc', 'Box') and v.fields: return display_value(ip, v.fields[0].v, ity)
     if isinstance(v, Agg):
         d = ip.resolve("<%s as Display>::fmt" % v.ty)
         if d is None: raise Unsupported("Display for " + v.ty)
@@ -951,7 +956,7 @@ def iter_next2(ip, it):
             t.fields[1].v = i + 1; return opt_some(flat[i])
         if i >= len(s): return OPT_NONE()
         t.fields[1].v = i + 1; return opt_some(s[i])
-    if t.ty == 'RangeIter':
+    if t.ty in ('RangeIter', 'Range'):
         i = t.fields[0].v; e = t.fields[1].v
         if is_sym(i) or is_sym(e):
             if not ip.branch(ip.binop(None, 'Lt', i, e, None)): return OPT_NONE()
@@ -962,7 +967,7 @@ def iter_next2(ip, it):
 _old_iter_next = iter_next
 def iter_next(ip, it):
     t = unref(it)
-    if getattr(t, 'ty', None) in ('SplitN', 'FilterMap', 'Cloned', 'Rev', 'Skip', 'Take', 'Zip', 'Chars', 'RangeIter'): return iter_next2(ip, it)
+    if getattr(t, 'ty', None) in ('SplitN', 'FilterMap', 'Cloned', 'Rev', 'Skip', 'Take', 'Zip', 'Chars', 'RangeIter', 'Range'): return iter_next2(ip, it)
     return _old_iter_next(ip, it)
 def m_iter_next_any(ip, c, a): return iter_next(ip, a[0])
 def m_iter_filter_map(ip, c, a): return Agg('FilterMap', None, [Cell(a[0]), Cell(a[1])])
